@@ -49,7 +49,9 @@ THEOREMS = ["QExPy.C10_mean_def",
             "QExPy.C10_selected_used_downstream"]
 RULE = ("seeded reading arrays (n 2..40, lists and ndarrays, offsets up to 1e6, spreads down to "
         "1e-3, no / common / per-element uncertainties, occasionally a zero uncertainty), selector "
-        "sequences of length 0-8, a downstream formula k*a+c read after every selector, a second "
+        "sequences of length 0-8, a downstream formula k*a+c read after every selector by the "
+        "derivative method AND by the Monte Carlo method (recorded draws: samples = "
+        "k*(value in use + uncertainty in use*z)+c), a second "
         "array for the inferred covariance (random, exactly collinear, n=2, constant, unequal "
         "length) through set_covariance or set_correlation; every statistic compared with "
         "Model/Stats.lean run at FB (Float + rounding bound); non-trivial = spread > 0 and "
